@@ -318,7 +318,10 @@ def stepWriteStr (c : Col) (s : String) (r : Json) : StepV := Id.run do
     match expected with
     | some (some e) =>
       let fracDigits := ((s.toList.dropWhile (· != '.')).drop 1).takeWhile Char.isDigit |>.length
-      let what := if c.ty == .duration && fracDigits > 18 then "rejected-valid/subsecond-digits" else "rejected-valid"
+      let what :=
+        if c.ty == .duration && fracDigits > 18 then "rejected-valid/subsecond-digits"
+        else if c.ty == .duration && !(durationOfStringPinned s.toList c.unit).isOk then "rejected-valid/i64-component"
+        else "rejected-valid"
       return { v with spec := "fail", what, why := s!"write {s.quote}: error, the Arrow value {e} is representable: {out.compress}" }
     | _ => return v
   | _, _ => return { v with agree := false, spec := "na", what := "harness", why := s!"unexpected outcome {out.compress}" }
